@@ -215,6 +215,9 @@ def make_features(rng, derivative, n=None, barrier=True):
     feats = [pick(rng, pool) for _ in range(n)]
     if barrier and rng.random() < 0.3:
         feats.append(Barrier(float(rng.uniform(0.9, 1.15)), up=bool(rng.random() < 0.5)))
+    if rng.random() < 0.15:
+        # a feature computed by a module with its own parameters (the no-transaction-band style of the examples)
+        feats.append(ModuleOutput(torch.nn.Linear(2, 1), ["underlier_spot", "volatility"]))
     return feats
 
 
@@ -259,6 +262,9 @@ def make_hedger(rng, derivative, n_hedges, model_kind=None, dtype=None, criterio
     hedger = Hedger(model, inputs, **kw)
     if dtype is not None:
         hedger.to(dtype)
+        for f_ in hedger.inputs.features:
+            if isinstance(f_, torch.nn.Module):
+                f_.to(dtype)  # FeatureList is not a Module: Hedger.to() does not reach module-output features
     hedger._pfv_kind = model_kind
     return hedger
 
